@@ -386,7 +386,7 @@ def stream_mp(ctx):
         base = tempfile.mkdtemp(prefix="verif_c03_")
         child_remove = rng.chance(50) if gi >= 6 or method != "osfork" else gi == 4
         try:
-            res = c03_child.parent_run(method, nproc, nthr, k, os.path.join(base, "out.log"),
+            res = c03_child.isolated_run(method, nproc, nthr, k, os.path.join(base, "out.log"),
                                        child_remove=child_remove, repo=core.REPO)
         finally:
             shutil.rmtree(base, ignore_errors=True)
@@ -397,6 +397,7 @@ def stream_mp(ctx):
             ctx.violation(res["bad"][0], {"stream": "mp", "method": method, "nproc": nproc, "nthr": nthr, "k": k,
                                           "child_remove": child_remove,
                                           "violations": res["bad"][:5]})
+            break
     ctx.sample({"stream": "mp", "grid": grid[:4]})
 
 
@@ -634,11 +635,10 @@ def stream_payloads(ctx):
 
 
 def run(ctx):
-    stream_shapes(ctx)
-    stream_payloads(ctx)
-    stream_sched(ctx)
-    stream_mp(ctx)
-    stream_asyncio(ctx)
+    for stream in (stream_shapes, stream_payloads, stream_sched, stream_mp, stream_asyncio):
+        stream(ctx)
+        if ctx.violations and getattr(ctx, "search_boost", False):
+            return           # enlarged search after a broken obligation: a failing input has been found
 
 
 def replay(ctx, rep):
@@ -653,7 +653,7 @@ def replay(ctx, rep):
         from harness import c03_child
         base = tempfile.mkdtemp(prefix="verif_c03_")
         try:
-            bad = c03_child.parent_run(r["method"], r["nproc"], r["nthr"], r["k"], os.path.join(base, "o.log"),
+            bad = c03_child.isolated_run(r["method"], r["nproc"], r["nthr"], r["k"], os.path.join(base, "o.log"),
                                        child_remove=r.get("child_remove", True), repo=core.REPO)["bad"]
         finally:
             shutil.rmtree(base, ignore_errors=True)
